@@ -81,6 +81,15 @@ class Oracle:
                 if wrong:
                     rep('class-missing-or-duplicated', 'class declared %s times' % sorted({tx['classes'].get(c, 0) for c in wrong}),
                         names=wrong[:4])
+                # type parameters
+                dcp = cdiff(tx['class_tparams'], ir['class_tparams'], set(ir['class_tparams']))
+                if dcp:
+                    rep('class-type-parameters-differ', 'declared class type parameters differ', names=[list(x) for x in dcp[:4]])
+                dfp = cdiff(tx['fun_tparams'], ir['fun_tparams'], set(ir['fun_tparams']))
+                if dfp:
+                    rep('function-type-parameters-differ', 'declared function type parameters differ', names=dfp[:4],
+                        text_counts={k: tx['fun_tparams'].get(k, 0) for k in dfp[:4]},
+                        ir_counts={k: ir['fun_tparams'].get(k, 0) for k in dfp[:4]})
                 # strings
                 missing = [s for s in ir['strings'] if tx['strings'].get(s, 0) < ir['strings'][s]]
                 if missing:
@@ -137,7 +146,7 @@ def plan(tier):
     if tier == 'quick':
         return [
             ([Config(l, z, 'S') for l in LANGS], [('prng', 1), ('prng', 2)], 1, 8),
-            ([Config(l, z, 'D') for l in LANGS], [('prng', c) for c in range(1, 7)], 0, 1),
+            ([Config(l, z, lim) for l in LANGS for lim in ('M', 'D')], [('prng', c) for c in range(1, 25)] + ['first', 'alt'], 0, 1),
         ]
     pol = ['first', 'last', 'alt'] + [('prng', c) for c in range(1, 9)]
     return [
